@@ -210,6 +210,33 @@ func (p *Prog) origins(v ssa.Value) []ssa.Value {
 			walk(x.X, d+1)
 		case *ssa.ChangeInterface:
 			walk(x.X, d+1)
+		case *ssa.Call:
+			// err := do() inside a helper, do being a closure passed by every caller: what the closures return
+			if prm, isP := x.Common().Value.(*ssa.Parameter); isP && !x.Common().IsInvoke() {
+				if h := prm.Parent(); p.isPlainHelper(h) && p.calledOnly(prm) && len(p.callers[h]) > 0 {
+					all := true
+					var rets []ssa.Value
+					for _, cs := range p.callers[h] {
+						cl := p.closureArgs(cs, h)[prm]
+						if cl == nil {
+							all = false
+							break
+						}
+						eachInstrLocal(cl, func(in ssa.Instruction) {
+							if r, isR := in.(*ssa.Return); isR && len(r.Results) > 0 {
+								rets = append(rets, r.Results[0])
+							}
+						})
+					}
+					if all && len(rets) > 0 {
+						for _, r := range rets {
+							walk(r, d+1)
+						}
+						return
+					}
+				}
+			}
+			out = append(out, v)
 		case *ssa.Parameter:
 			// the parameter of a plain helper comes from the arguments of its calls
 			if h := x.Parent(); p.isPlainHelper(h) && len(p.callers[h]) > 0 {
